@@ -54,10 +54,11 @@ TNS = 'urn:t'
 NS = {'': TNS, 't': TNS, 'xs': XSD, 'xsi': XSI}
 
 BUILTIN = {'short', 'int', 'long', 'integer', 'decimal', 'string', 'date', 'boolean', 'unsignedLong',
-           'nonNegativeInteger', 'anyAtomicType', 'anySimpleType', 'anyType'}
-ALIAS = {'bint': 'integer', 'bdec': 'decimal'}       # spec names of built-ins whose values are digit sequences
+           'nonNegativeInteger', 'gYearMonth', 'gYear', 'QName', 'anyAtomicType', 'anySimpleType', 'anyType'}
+ALIAS = {'bint': 'integer', 'bdec': 'decimal', 'qname': 'QName'}       # spec names of built-ins whose values are digit sequences
 QUERY = ['short', 'int', 'long', 'integer', 'decimal', 'string', 'date', 'boolean', 'small', 'ilist',
-         'u', 'ud', 'v', 'sc', 'grp', 'unsignedLong', 'nonNegativeInteger', 'anyAtomicType', 'anySimpleType', 'anyType']
+         'u', 'ud', 'v', 'sc', 'grp', 'unsignedLong', 'nonNegativeInteger', 'gYearMonth', 'gYear', 'qname',
+         'anyAtomicType', 'anySimpleType', 'anyType']
 # the built-in atomic queries asked with ONE parsed expression over all the children of the root
 MULTI_QUERY = ['int', 'long', 'integer', 'decimal', 'string', 'date', 'boolean', 'anyAtomicType']
 ELEM_KINDS = ('ea', 'eb', 'em')
@@ -113,6 +114,11 @@ WALK = {
         # the global type v is defined differently by S and S' (restriction of the type of kid 1); xsi:type="v"
         ('vtype', dict(KidMenu={kd('int', 1, 2), kd('decimal', 0, 1)}, AttrMenu=set()),
          dict(MinKids=1, MaxKids=1, MaxAtts=0, LexCap=1, XsiOn=False, VOn=True, RetypeTo={'string', 'decimal'})),
+        # built-ins with one datatype class / value space per XSD version, xs:QName, xsi:nil="false"
+        ('ver', dict(KidMenu={kd('gYearMonth', 1, 2), kd('gYear', 1, 1, True), kd('date', 0, 1), kd('qname', 1, 1),
+                              kd('int', 1, 1, True, anon=True)},
+                     AttrMenu={ad('a', 'gYearMonth'), ad('c', 'gYear', 'dflt')}),
+         dict(MinKids=1, MaxKids=1, MaxAtts=1, LexCap=2, XsiOn=False, VOn=False, RetypeTo={'string'})),
         # anonymous local simple types (type_name None) with different bases next to each other
         ('anon', dict(KidMenu={kd('int', 1, 1, anon=True), kd('string', 1, 1, anon=True), kd('decimal', 0, 1, anon=True),
                                kd('int', 1, 2), kd('u', 1, 2)}, AttrMenu=set()),
@@ -128,6 +134,10 @@ WALK = {
          dict(MinKids=1, MaxKids=2, MaxAtts=0, LexCap=2, XsiOn=False, VOn=False, RetypeTo={'integer', 'decimal'})),
         ('vtype', dict(KidMenu={kd(t, 1, 2) for t in ['int', 'integer', 'decimal', 'string']} | {kd('boolean', 0, 1)}, AttrMenu=set()),
          dict(MinKids=1, MaxKids=2, MaxAtts=0, LexCap=1, XsiOn=False, VOn=True, RetypeTo={'string', 'decimal', 'integer'})),
+        ('ver', dict(KidMenu={kd(t, 1, 2, True, True) for t in ['gYearMonth', 'gYear', 'date', 'qname']}
+                              | {kd('int', 1, 1, True, anon=True), kd('string', 0, 1, True, anon=True)},
+                     AttrMenu={ad('a', 'gYearMonth'), ad('c', 'gYear', 'dflt'), ad('c', 'qname')}),
+         dict(MinKids=1, MaxKids=1, MaxAtts=1, LexCap=2, XsiOn=False, VOn=False, RetypeTo={'string'})),
         ('anon', dict(KidMenu={kd(t, 1, 1, anon=True) for t in ['int', 'string', 'decimal', 'integer']}
                       | {kd('int', 1, 2), kd('u', 1, 2), kd('string', 0, 1, True, True, anon=True)}, AttrMenu=set()),
          dict(MinKids=2, MaxKids=3, MaxAtts=0, LexCap=1, XsiOn=False, VOn=False, RetypeTo={'string', 'decimal'})),
@@ -141,11 +151,11 @@ WALK = {
         ('flags', dict(KidMenu={kd(t, 1, 2, True, True) for t in SIMPLE9 + ['sc']}
                        | {kd(t, 0, 1, True, False) for t in ['integer', 'decimal', 'int']}, AttrMenu=set()),
          dict(MinKids=1, MaxKids=1, MaxAtts=0, LexCap=4, XsiOn=True, VOn=False, RetypeTo={'decimal', 'string', 'integer', 'u'})),
-        ('attrs', dict(KidMenu={kd('sc', 0, 1, True)},
+        ('attrs', dict(KidMenu={kd('sc', 0, 1)},
                        AttrMenu={ad('a', 'date'), ad('a', 'int', 'dflt'), ad('a', 'ilist'), ad('a', 'u', 'dflt'),
                                  ad('c', 'boolean', 'dflt'), ad('c', 'small', 'req'), ad('c', 'decimal', 'dflt')}),
          dict(MinKids=1, MaxKids=1, MaxAtts=2, LexCap=1, XsiOn=False, VOn=False, RetypeTo={'string', 'decimal'})),
-        ('seq3', dict(KidMenu={kd('int', 1, 1, False, True), kd('int', 0, 1), kd('decimal', 1, 2, True, True),
+        ('seq3', dict(KidMenu={kd('int', 1, 1, False, True), kd('int', 0, 1), kd('decimal', 1, 2, False, True),
                                kd('grp', 1, 1)},
                       AttrMenu=set()),
          dict(MinKids=3, MaxKids=3, MaxAtts=0, LexCap=1, XsiOn=False, VOn=False, RetypeTo={'string'})),
@@ -165,7 +175,7 @@ SELECT = {
                      AttrMenu={ad('a', 'date'), ad('c', 'boolean', 'dflt'), ad('a', 'int', 'dflt')}),
          dict(MinKids=0, MaxKids=2, MaxAtts=2, LexCap=1, XsiOn=False, VOn=False, Axes=set(AXES_T), Tests=set(TESTS), MaxSteps=2,
               Kinds=XKINDS, RootCfg='R2'),
-         [1, 2, 3, 4, 5, 6, 7, 8, 9]),
+         [1, 2, 3, 4, 5, 6, 7, 8]),
     ],
 }
 
@@ -228,7 +238,11 @@ TYPE_DEFS = (
     '<xs:complexType name="grp"><xs:sequence><xs:element name="b" type="xs:boolean" minOccurs="0"/></xs:sequence></xs:complexType>')
 
 
-def xsd_text(S, sdef) -> str:
+def xsd_text(S, sdef, nons: bool = False) -> str:
+    """nons=True: the same schema without a target namespace (elements and types in no namespace)"""
+    if nons:
+        return xsd_text(S, sdef).replace(f' xmlns:t="{TNS}" targetNamespace="{TNS}" elementFormDefault="qualified"', '') \
+            .replace('"t:', '"')
     out = [f'<xs:schema xmlns:xs="{XSD}" xmlns:t="{TNS}" targetNamespace="{TNS}" elementFormDefault="qualified">',
            TYPE_DEFS,
            # the global type whose definition depends on the schema
@@ -269,14 +283,30 @@ def xsd_text(S, sdef) -> str:
 class Doc:
     """The instance as a real tree, built node by node from Flatten(S, inst) (PSVI nodes skipped)."""
 
-    def __init__(self, f, lib: str, materialise: bool = False):
-        """materialise=True writes the attributes the PSVI would add into the document itself"""
+    def __init__(self, f, lib: str, materialise: bool = False, env: str = 'plain', nsplace: str = 'root',
+                 nons: bool = False):
+        """materialise=True writes the attributes the PSVI would add into the document itself.
+        Renderings the annotations must not depend on (SchemaTyping: DocEnvs, NsPlaces):
+        env: comment / PI beside the root element (lxml keeps them as children of the document; the
+             context root is then the ElementTree, the context item the root element);
+        nsplace: where the prefix of an xsi:type value is declared (lxml; xml.etree has no per-element
+             namespace map): 'root' | 'self' (prefix q / x on the element only) | 'redecl' (root binds q / x
+             to another URI, the element re-declares them);
+        nons: the schema has no target namespace (elements and types in no namespace)."""
+        tns = None if nons else TNS
+        tag_ = (lambda name: name) if nons else (lambda name: f'{{{TNS}}}{name}')
         if lib == 'etree':
             import xml.etree.ElementTree as mod
             mk = lambda tag: mod.Element(tag)   # noqa
+            env, nsplace = 'plain', 'root'      # xml.etree keeps neither document-level siblings nor local prefixes
         else:
             import lxml.etree as mod
-            mk = lambda tag: mod.Element(tag, nsmap={None: TNS, 't': TNS, 'xs': XSD, 'xsi': XSI})   # noqa
+            rmap = {'xs': XSD, 'xsi': XSI} if nons else {None: TNS, 't': TNS, 'xs': XSD, 'xsi': XSI}
+            if nsplace == 'redecl':
+                rmap = dict(rmap, q='urn:other', x='urn:other')
+            mk = lambda tag: mod.Element(tag, nsmap=rmap)   # noqa
+        self.env, self.nsplace, self.nons = env, nsplace, nons
+        has_xt = {nd['par'] for nd in f if nd['s'] == 'xtype'}
         self.lib = lib
         self.f = f
         self.obj: dict[int, object] = {}        # id -> element | (element, attr name) | ('text', element)
@@ -285,7 +315,7 @@ class Doc:
         for n, nd in enumerate(f, 1):
             s = nd['s']
             if s == 'root':
-                self.root = self.obj[n] = mk(f'{{{TNS}}}b')
+                self.root = self.obj[n] = mk(tag_('b'))
                 self.paths[n] = '.'
             elif s in ('ratt_a', 'ratt_c'):
                 name = s[-1]
@@ -295,22 +325,30 @@ class Doc:
                 self.paths[n] = '@' + name
             elif s == 'kid':
                 name = 'm' if nd['k'] == 'em' else KIDNAME[nd['i']]
-                el = mod.SubElement(self.root, f'{{{TNS}}}{name}')
+                if lib == 'lxml' and nsplace != 'root' and n in has_xt:
+                    el = mod.SubElement(self.root, tag_(name), nsmap={'q': TNS, 'x': XSD})   # declared on the element itself
+                else:
+                    el = mod.SubElement(self.root, tag_(name))
                 if nd['lx']:
                     el.text = lex(nd['lx'])
                 self.obj[n] = el
                 count[name] = count.get(name, 0) + 1
                 self.paths[n] = f'{name}[{count[name]}]'
             elif s == 'xnil':
-                self.obj[nd['par']].set(f'{{{XSI}}}nil', 'true')
+                self.obj[nd['par']].set(f'{{{XSI}}}nil', lex(nd['lx']))
             elif s == 'xtype':
-                self.obj[nd['par']].set(f'{{{XSI}}}type', qn(nd['lx'][0]))
+                q = qn(nd['lx'][0])
+                if nons:
+                    q = q[2:] if q.startswith('t:') else q
+                elif lib == 'lxml' and nsplace != 'root':
+                    q = ('q:' if q.startswith('t:') else 'x:') + q.split(':')[1]
+                self.obj[nd['par']].set(f'{{{XSI}}}type', q)
             elif s == 'katt':
                 self.obj[nd['par']].set('a', lex(nd['lx']))
                 self.obj[n] = (self.obj[nd['par']], 'a')
                 self.paths[n] = self.paths[nd['par']] + '/@a'
             elif s == 'sub':
-                el = mod.SubElement(self.obj[nd['par']], f'{{{TNS}}}b')
+                el = mod.SubElement(self.obj[nd['par']], tag_('b'))
                 el.text = lex(nd['lx'])
                 self.obj[n] = el
                 self.paths[n] = self.paths[nd['par']] + '/b'
@@ -328,6 +366,27 @@ class Doc:
             else:
                 self.key2id[id(o)] = n
         self.mod = mod
+        # the root of the context: the element, or -- with document-level siblings -- the document
+        self.ctxroot = self.root
+        if lib == 'lxml' and env != 'plain':
+            if env in ('prolog', 'both'):
+                self.root.addprevious(mod.Comment(' generated '))
+                self.root.addprevious(mod.ProcessingInstruction('style', 'x'))
+            if env in ('epilog', 'both'):
+                self.root.addnext(mod.Comment(' trailer '))
+            self.ctxroot = self.root.getroottree()
+        self.ns = {'xs': XSD, 'xsi': XSI} if nons else NS
+
+    def q(self, t: str) -> str:
+        """QName of a type in XPath text"""
+        name = qn(t)
+        return name[2:] if self.nons and name.startswith('t:') else name
+
+    def context(self, proxy=None):
+        from elementpath import XPathContext
+        if self.ctxroot is self.root:
+            return XPathContext(self.root, namespaces=self.ns, schema=proxy)
+        return XPathContext(self.ctxroot, namespaces=self.ns, item=self.root, schema=proxy)
 
     def xml(self) -> str:
         s = self.mod.tostring(self.root)
@@ -392,14 +451,15 @@ def get_schema(xsd: str, version: str):
     return s
 
 
-def get_token(expr: str, pv: str, proxy):
-    key = (expr, pv, id(proxy))
+def get_token(expr: str, pv: str, proxy, ns=None):
+    ns = NS if ns is None else ns
+    key = (expr, pv, id(proxy), '' in ns)
     t = _tokens.get(key)
     if t is None:
         if len(_tokens) > 200000:
             _tokens.clear()
         try:
-            t = parsers()[pv](namespaces=NS, schema=proxy).parse(expr)
+            t = parsers()[pv](namespaces=ns, schema=proxy).parse(expr)
         except Exception as e:
             t = e
         _tokens[key] = t
@@ -415,7 +475,7 @@ def err_class(e) -> tuple:
 
 def evaluate(expr: str, pv: str, proxy, ctx):
     """value list | ('err', code) | ('escaped', cls); through a cached token and a copy of the context"""
-    tok = get_token(expr, pv, proxy)
+    tok = get_token(expr, pv, proxy, ctx.namespaces)
     if isinstance(tok, Exception):
         c = err_class(tok)
         return ('static', c[1]) if c[0] == 'err' else c     # raised by parse(): the schema-aware static analysis
@@ -428,13 +488,15 @@ def evaluate(expr: str, pv: str, proxy, ctx):
     return r if isinstance(r, list) else [r]
 
 
-def select_api(root, expr: str, pv: str, proxy):
+def select_api(root, expr: str, pv: str, proxy, ns=None, item=None):
     import elementpath
-    tok = get_token(expr, pv, proxy)
+    ns = NS if ns is None else ns
+    tok = get_token(expr, pv, proxy, ns)
     if isinstance(tok, Exception) and err_class(tok)[0] == 'err':
         return ('static', err_class(tok)[1])
     try:
-        r = elementpath.select(root, expr, namespaces=NS, parser=parsers()[pv], schema=proxy)
+        kw = {} if item is None else {'item': item}
+        r = elementpath.select(root, expr, namespaces=ns, parser=parsers()[pv], schema=proxy, **kw)
     except RecursionError:
         return ('escaped', 'RecursionError')
     except Exception as e:  # noqa
@@ -449,7 +511,13 @@ def value_classes(version: str) -> dict:
     import elementpath.datatypes as dt
     return {'long': dt.Long, 'unsignedLong': dt.UnsignedLong, 'bigInteger': dt.Integer, 'bigDecimal': Decimal,
             'int': dt.Int, 'integer': dt.Integer, 'decimal': Decimal, 'string': str, 'boolean': bool,
-            'date': dt.Date10 if version == '1.0' else dt.Date, 'untypedAtomic': dt.UntypedAtomic}
+            'date': dt.Date10 if version == '1.0' else dt.Date, 'untypedAtomic': dt.UntypedAtomic,
+            # one class per XSD version (SchemaTyping: VersionedTags): the EXACT class is required
+            'gYearMonth': dt.GregorianYearMonth10 if version == '1.0' else dt.GregorianYearMonth,
+            'gYear': dt.GregorianYear10 if version == '1.0' else dt.GregorianYear, 'QName': dt.QName}
+
+
+VERSIONED = ('date', 'gYearMonth', 'gYear')
 
 
 def tag_of(v) -> str:
@@ -491,6 +559,12 @@ def same_value(exp, v) -> bool:
             return str(v) == lex(exp['s'])
         if t == 'boolean':
             return v is exp['b'] or (isinstance(v, bool) and v == exp['b'])
+        if t == 'gYearMonth':     # the value its own class makes of the lexical form of the spec's value
+            return v == type(v).fromstring('%s%04d-%02d' % ('-' if exp['ly'] < 0 else '', abs(exp['ly']), exp['m']))
+        if t == 'gYear':
+            return v == type(v).fromstring('%s%04d' % ('-' if exp['ly'] < 0 else '', abs(exp['ly'])))
+        if t == 'QName':
+            return (v.namespace or '') == exp['ns'] and v.local_name == lex(exp['lo'])
         if t == 'date':
             return (v.year, v.month, v.day) == (exp['y'], exp['m'], exp['d']) and getattr(v, 'tzinfo', None) is None
     except Exception:
@@ -507,8 +581,9 @@ def cmp_values(exp_seq, obs, classes) -> str | None:
     for e, v in zip(exp_seq, obs):
         if not same_value(e, v):
             return 'value'
-        if not isinstance(v, classes[e['t']]) or (e['t'] != 'boolean' and isinstance(v, bool)):
-            return 'class:' + tag_of(v)
+        if not isinstance(v, classes[e['t']]) or (e['t'] != 'boolean' and isinstance(v, bool)) or \
+                (e['t'] in VERSIONED and type(v) is not classes[e['t']]):
+            return 'class:' + (type(v).__name__ if e['t'] in VERSIONED else tag_of(v))
     return None
 
 
@@ -545,6 +620,8 @@ def flag_of(vec, n) -> str:
     if nd['s'] == 'kid':
         if not nd['lx'] and tuple(vec['sdef']['kids'][nd['i'] - 1]) != NOLEX and a['tv'] != NOVALUE:
             return 'default'            # EffText of the spec: empty content and the declaration has a default
+        if any(x['s'] == 'xnil' and x['par'] == n and lex(x['lx']) == 'false' for x in vec['f']):
+            return 'nilfalse'
         if any(x['s'] == 'xtype' and x['par'] == n for x in vec['f']):
             return 'xsitype'
     return 'plain'
@@ -605,6 +682,8 @@ def oracle_check(vec, S, xsd: str, version: str, doc: Doc, msgs: list) -> None:
         if tv == NOVALUE or a['nilled'] or a['ty'] in ('-',):
             continue
         ty = 'decimal' if a['ty'] == 'sc' else a['ty'][1:] if a['ty'].startswith('~') else ALIAS.get(a['ty'], a['ty'])
+        if ty == 'QName':
+            continue          # xmlschema decodes an xs:QName to its lexical form (and needs the namespace map)
         xt = sch.maps.types['{%s}%s' % (XSD if ty in BUILTIN else TNS, ty)]
         # the text the processor decodes: content, or the default the spec says applies
         if nd['s'] == 'kid' and not nd['lx'] and flag_of(vec, n) == 'default':
@@ -617,6 +696,10 @@ def oracle_check(vec, S, xsd: str, version: str, doc: Doc, msgs: list) -> None:
             msgs.append(f'xmlschema cannot decode {text!r} as {ty}: {e}')
             continue
         dec = dec if isinstance(dec, list) else [dec]
+        if tv and tv[0]['t'] == 'QName':
+            continue          # xmlschema decodes an xs:QName to its lexical form
+        if tv and tv[0]['t'] in VERSIONED and type(dec[0]) is not value_classes(version)[tv[0]['t']]:
+            msgs.append(f'class of {ty} under XSD {version}: xmlschema decodes a {type(dec[0]).__name__}')
         if len(dec) != len(tv) or not all(same_value(e, v) for e, v in zip(tv, dec)):
             msgs.append(f'spec TypedValue({ty}, {text!r}) = {tv} but xmlschema decodes {dec!r}')
         # the order of the big points: python's exact Decimal comparison must agree with BigCmp of the spec
@@ -648,10 +731,13 @@ def check_fresh(vec, slot, S, xsd, version, lib, pv, doc: Doc, fails: list, stat
     from elementpath import XPathContext
     _, proxy = get_schema(xsd, version)
     classes = value_classes(version)
-    ctx = XPathContext(doc.root, namespaces=NS, schema=proxy)
+    ctx = doc.context(proxy)
     nodes = find_nodes(ctx.root, doc)
     base = dict(mode='fresh', xsd=version, lib=lib, parser=pv)
     case0 = dict(kind='fresh', xsd_text=xsd, xml=doc.xml(), version=version, lib=lib, parser=pv, f=[dict(x) for x in vec['f']])
+    for k_, v_ in (('env', doc.env), ('nsplace', doc.nsplace), ('nons', doc.nons)):
+        if v_ not in ('plain', 'root', False):      # renderings the annotations must not depend on
+            base[k_] = case0[k_] = v_
     for n, (nd, a) in enumerate(zip(vec['f'], vec['typed']), 1):
         if nd['k'] not in TYPED_KINDS:
             continue
@@ -687,9 +773,9 @@ def check_fresh(vec, slot, S, xsd, version, lib, pv, doc: Doc, fails: list, stat
             if not simple and q not in vec['iofopt'][n - 1]:
                 continue      # element-only content: the property speaks of simple / simple-content nodes; only the
                               # declared type and its bases are asked
-            forms = [(f'{path} instance of {kt}(*, {qn(q)})', q in vec['iof'][n - 1], False)]
+            forms = [(f'{path} instance of {kt}(*, {doc.q(q)})', q in vec['iof'][n - 1], False)]
             if kt == 'element' and (a['nilled'] or q in ('int', 'anyType')):
-                forms.append((f'{path} instance of element(*, {qn(q)}?)', q in vec['iofopt'][n - 1], True))
+                forms.append((f'{path} instance of element(*, {doc.q(q)}?)', q in vec['iofopt'][n - 1], True))
             for expr, want, opt in forms:
                 obs = evaluate(expr, pv, proxy, ctx)
                 stats['evaluations'] += 1
@@ -706,12 +792,14 @@ def check_fresh(vec, slot, S, xsd, version, lib, pv, doc: Doc, fails: list, stat
                               dict(case0, expr=expr), want, repr(obs)))
         # arithmetic / comparison use the typed value
         for probe, expr in (('plus1', f'{path} + 1'), ('idiv2', f'{path} idiv 2'), ('eq7', f'{path} = 7'),
-                            ('ltdate', f"{path} lt xs:date('2001-01-01')")):
+                            ('ltdate', f"{path} lt xs:date('2001-01-01')"),
+                            ('eqself', f'{path} eq {doc.q(tname(a["ty"]))}("{node_features(vec, n)["text"].strip()}")')):
             want = vec[probe][n - 1]
             if want['k'] == 'na':
                 continue
             for api in ((False, True) if use_select else (False,)):
-                obs = select_api(doc.root, expr, pv, proxy) if api else evaluate(expr, pv, proxy, ctx)
+                obs = select_api(doc.ctxroot, expr, pv, proxy, doc.ns, None if doc.ctxroot is doc.root else doc.root) \
+                    if api else evaluate(expr, pv, proxy, ctx)
                 stats['evaluations'] += 1
                 out = probe_outcome(want, obs, classes)
                 if want['k'] == 'val':
@@ -720,6 +808,15 @@ def check_fresh(vec, slot, S, xsd, version, lib, pv, doc: Doc, fails: list, stat
                     fails.append((dict(base, probe=probe, outcome=out, api=('select' if api else 'token'),
                                        **node_features(vec, n)),
                                   dict(case0, expr=expr, api=('select' if api else 'token')), want, repr(obs)))
+    # ---- fn:sum over the kids named a adds their typed values
+    if vec['suma']['k'] != 'na':
+        obs = evaluate('sum(a)', pv, proxy, ctx)
+        stats['evaluations'] += 1
+        out = probe_outcome(vec['suma'], obs, classes)
+        if out:
+            first = next(n for n, nd in enumerate(vec['f'], 1) if nd['s'] == 'kid' and nd['k'] == 'ea')
+            fails.append((dict(base, probe='sum', outcome=out, **node_features(vec, first)), dict(case0, expr='sum(a)'),
+                          vec['suma'], repr(obs)))
     # ---- value comparisons of nodes whose values do not fit a double (exact: they use the typed value)
     for n, probes in enumerate(vec['cmplit'], 1):
         for K, op, holds in sorted(probes):
@@ -743,13 +840,13 @@ def check_fresh(vec, slot, S, xsd, version, lib, pv, doc: Doc, fails: list, stat
     kids = [n for n, nd in enumerate(vec['f'], 1) if nd['par'] == 1 and nd['k'] in ELEM_KINDS]
     if len(kids) > 1:
         for q in MULTI_QUERY:
-            single = [evaluate(f'{doc.paths[n]} instance of element(*, {qn(q)})', pv, proxy, ctx) for n in kids]
+            single = [evaluate(f'{doc.paths[n]} instance of element(*, {doc.q(q)})', pv, proxy, ctx) for n in kids]
             stats['evaluations'] += len(kids)
             if any(isinstance(o, tuple) for o in single):
                 continue            # an error of one node (reported above) would end the whole expression
             wants = [q in vec['iof'][n - 1] for n in kids]
-            for form, expr in (('for', f'for $e in * return $e instance of element(*, {qn(q)})'),
-                               ('filter', f'*[. instance of element(*, {qn(q)})]')):
+            for form, expr in (('for', f'for $e in * return $e instance of element(*, {doc.q(q)})'),
+                               ('filter', f'*[. instance of element(*, {doc.q(q)})]')):
                 obs = evaluate(expr, pv, proxy, ctx)
                 stats['evaluations'] += 1
                 if isinstance(obs, tuple):
@@ -777,6 +874,46 @@ def check_fresh(vec, slot, S, xsd, version, lib, pv, doc: Doc, fails: list, stat
              for a in e.attributes if (id(e.value), a.name) not in doc.key2id and not a.name.startswith('{' + XSI)]
     if extra:
         fails.append((dict(base, probe='extra_attribute'), dict(case0), [], extra))
+
+
+USER_TYPES = ('small', 'ilist', 'u', 'ud', 'v', 'sc')
+
+
+def check_nons(vec, S, version, lib, pv, fails: list, stats: dict, oracle: list):
+    """the same schema WITHOUT a target namespace: type names are in no namespace, and so are the names the
+    kind tests use; asked: the type annotation and `instance of element(*, T)` for the declared user type and
+    its user-defined bases"""
+    if any(a['tv'] != NOVALUE and a['tv'] and a['tv'][0]['t'] == 'QName' for a in vec['typed']):
+        return          # the QName lexicals of the universe use the prefix t / the default namespace urn:t
+    xsd = xsd_text(S, vec['sdef'], nons=True)
+    sch, proxy = get_schema(xsd, version)
+    doc = Doc(vec['f'], lib, nons=True)
+    if sch.is_valid(doc.root, namespaces=doc.ns) is not True:
+        oracle.append(f'xmlschema {version} rejects the no-namespace rendering: {doc.xml()}')
+        return
+    ctx = doc.context(proxy)
+    nodes = find_nodes(ctx.root, doc)
+    base = dict(mode='fresh', xsd=version, lib=lib, parser=pv, nons=True)
+    case0 = dict(kind='fresh', xsd_text=xsd, xml=doc.xml(), version=version, lib=lib, parser=pv, nons=True,
+                 f=[dict(x) for x in vec['f']])
+    for n, (nd, a) in enumerate(zip(vec['f'], vec['typed']), 1):
+        if nd['k'] not in TYPED_KINDS or n not in nodes:
+            continue
+        tn = observe_node(nodes[n])[0]
+        stats['evaluations'] += 1
+        if tn != tname(a['ty']):
+            fails.append((dict(base, probe='type_name', observed_type=str(tn), **node_features(vec, n)),
+                          dict(case0, path=doc.paths[n], probe='type_name'), tname(a['ty']), tn))
+        kt = 'attribute' if nd['k'] in ('xa', 'xc') else 'element'
+        for q in USER_TYPES:
+            if q in vec['iof'][n - 1] and a['tv'] != NOVALUE:
+                expr = f'{doc.paths[n]} instance of {kt}(*, {doc.q(q)})'
+                obs = evaluate(expr, pv, proxy, ctx)
+                stats['evaluations'] += 1
+                if obs != [True]:
+                    out = f'{obs[0]}:{obs[1]}' if isinstance(obs, tuple) else 'missing'
+                    fails.append((dict(base, probe='instance_of', query=q, optional=False, outcome=out, in_chain=True,
+                                       **node_features(vec, n)), dict(case0, expr=expr), True, repr(obs)))
 
 
 def check_untyped(vec, lib, pv, doc: Doc, fails: list, stats: dict):
@@ -877,9 +1014,11 @@ def replay_history(tid, trip, states, edges, init, lib, version, fails, stats):
     classes = dict(value_classes(version))
     vecs = {1: vec1, 2: vec2}
 
+    env = sorted(vec1['envs'])[tid % len(vec1['envs'])]      # document-level siblings (kept by lxml only)
+
     def fresh():
-        doc = Doc(vec1['f'], lib)
-        tree = get_node_tree(doc.root, namespaces=NS)
+        doc = Doc(vec1['f'], lib, env=env)
+        tree = get_node_tree(doc.ctxroot, namespaces=NS)
         return doc, XPathContext(tree, namespaces=NS)
 
     prefix = {init: ()}
@@ -906,7 +1045,7 @@ def replay_history(tid, trip, states, edges, init, lib, version, fails, stats):
             stats['evaluations'] += len(ety) + len(aty)
             actions = [list(x) for x in prefix[s]] + [[action, list(args)]]
             case = dict(kind='history', xsd1=xsd[1], xsd2=xsd[2], xml=doc.xml(), version=version, lib=lib, actions=actions,
-                        f=[dict(x) for x in vec1['f']])
+                        f=[dict(x) for x in vec1['f']], env=doc.env)
             k = args[0] if action == 'SetSchema' else None
             feat = dict(mode='history', action=action, k=k, pre_ctx=pre['ctx'],
                         reapply_same_proxy=bool(action == 'SetSchema' and k != 0 and pre['tsch'] == k),
@@ -974,15 +1113,33 @@ def walk_worker(job):
             for version in ('1.0', '1.1'):
                 lib = 'etree' if (tid + slot + (version == '1.1')) % 2 else 'lxml'
                 pv = '2.0' if (tid + slot) % 3 == 0 else '3.1'
-                doc = Doc(vec['f'], lib)
+                # renderings of the same instance the annotations must not depend on (taken in turn; lxml only)
+                envs, places = sorted(vec['envs']), sorted(vec['nsplaces'])
+                env = envs[(tid + slot + (version == '1.1')) % len(envs)]
+                place = places[tid % len(places)]
+                doc = Doc(vec['f'], lib, env=env, nsplace=place)
                 oracle_check(vec, S, xsd, version, doc, oracle)
                 if oracle:
                     return stats, fails, oracle[:5], samples
                 check_fresh(vec, slot, S, xsd, version, lib, pv, doc, fails, stats,
                             use_select=(tier == 'thorough' or tid % 4 == 0))
+                if any(nd['s'] == 'xtype' for nd in vec['f']):
+                    # every place where the prefix of the xsi:type value can be declared, on the tree that keeps them
+                    for place2 in places:
+                        if (lib, place) != ('lxml', place2):
+                            d2 = Doc(vec['f'], 'lxml', env=env, nsplace=place2)
+                            oracle_check(vec, S, xsd, version, d2, oracle)
+                            if oracle:
+                                return stats, fails, oracle[:5], samples
+                            check_fresh(vec, slot, S, xsd, version, 'lxml', pv, d2, fails, stats, False)
                 if tier == 'thorough':
                     for lib2, pv2 in (('lxml' if lib == 'etree' else 'etree', '3.0'),):
-                        check_fresh(vec, slot, S, xsd, version, lib2, pv2, Doc(vec['f'], lib2), fails, stats, False)
+                        check_fresh(vec, slot, S, xsd, version, lib2, pv2,
+                                    Doc(vec['f'], lib2, env=envs[(tid + 1) % len(envs)]), fails, stats, False)
+                if tier == 'thorough' or (tid + slot) % 3 == 0:
+                    check_nons(vec, S, version, lib, pv, fails, stats, oracle)
+                    if oracle:
+                        return stats, fails, oracle[:5], samples
             if slot == 1:
                 check_untyped(vec, 'etree', '3.1', Doc(vec['f'], 'etree'), fails, stats)
             if len(samples) < 2 and len(vec['f']) > 3:
@@ -1031,75 +1188,88 @@ def select_worker(job):
             s = queue.popleft()
             for d, action, args in out.get(s, ()):
                 stats['transitions'] += 1
+                if action == 'Root':        # a leading "/": nothing to evaluate yet, the steps that follow are absolute paths
+                    prefix[d] = '/'
+                    queue.append(d)
+                    continue
                 step = f'{args[0]}::{args[1]}'
-                path = (prefix[s] + '/' + step) if prefix[s] else step
-                want_s, want_p = sorted(states[d]['cur']), sorted(states[d]['curP'])
+                path = ('/' + step) if prefix[s] == '/' else (prefix[s] + '/' + step) if prefix[s] else step
+                # the virtual document of an Element root is never part of a result
+                want_s, want_p = sorted(set(states[d]['cur']) - {0}), sorted(set(states[d]['curP']) - {0})
                 if len(want_s) > 1 or want_s != want_p:
                     stats['nontrivial'] += 1
-                # second oracle of the spec: libxml2 on the schema-less tree
-                try:
-                    lres = sorted(docs['lxml'].lx_id(x) for x in docs['lxml'].root.xpath(lx_path(path), namespaces={'t': TNS}))
-                except Exception as e:  # noqa
-                    lres = ('err', type(e).__name__)
-                stats['lx_evals'] += 1
-                if lres != want_p:
-                    oracle.append(f'spec {want_p} libxml2 {lres} for {path} on {docs["lxml"].xml()}')
+                # second oracle of the spec: libxml2 on the schema-less tree (it cannot return the document node)
+                if 0 not in states[d]['cur']:
+                    try:
+                        lres = sorted(docs['lxml'].lx_id(x) for x in docs['lxml'].root.xpath(lx_path(path), namespaces={'t': TNS}))
+                    except Exception as e:  # noqa
+                        lres = ('err', type(e).__name__)
+                    stats['lx_evals'] += 1
+                    if lres != want_p:
+                        oracle.append(f'spec {want_p} libxml2 {lres} for {path} on {docs["lxml"].xml()}')
                 ok = True
+                spellings = [path]
+                if path.startswith('/'):     # the abbreviated spelling of an absolute path: /*, //a, //@c
+                    ab = path.replace('/descendant-or-self::node()/', '//').replace('child::', '').replace('attribute::', '@')
+                    if ab != path and '::' not in ab:
+                        spellings.append(ab)
                 libs = ('etree', 'lxml') if (tier == 'thorough' or (pid + stats['transitions']) % 8 == 0) else ('etree',)
                 for lib in libs:
-                    for pv in (('2.0', '3.1') if tier == 'thorough' else (('3.1',) if stats['transitions'] % 2 else ('2.0',))):
-                        obs2 = {}
-                        for with_schema in (True, False):
-                            ctx = ctxs[lib][0 if with_schema else 1]
-                            tok = get_token(path, pv, proxy if with_schema else None)
-                            if isinstance(tok, Exception):
-                                obs = err_class(tok)
-                            else:
-                                try:
-                                    obs = [docs[lib].node_id(x) for x in tok.select(copy(ctx))]
-                                except Exception as e:  # noqa
-                                    obs = err_class(e)
-                            stats['evaluations'] += 1
-                            obs2[with_schema] = obs
+                    for ptext in spellings:
+                      for pv in (('2.0', '3.1') if tier == 'thorough' else (('3.1',) if stats['transitions'] % 2 else ('2.0',))):
+                          obs2 = {}
+                          for with_schema in (True, False):
+                              ctx = ctxs[lib][0 if with_schema else 1]
+                              tok = get_token(ptext, pv, proxy if with_schema else None)
+                              if isinstance(tok, Exception):
+                                  obs = err_class(tok)
+                              else:
+                                  try:
+                                      obs = [i for i in (docs[lib].node_id(x) for x in tok.select(copy(ctx))) if i != 0]
+                                  except Exception as e:  # noqa
+                                      obs = err_class(e)
+                              stats['evaluations'] += 1
+                              obs2[with_schema] = obs
 
-                        def srt(o):
-                            try:
-                                return sorted(o) if isinstance(o, list) else None
-                            except TypeError:
-                                return None
-                        base_ok = srt(obs2[False]) == want_p
-                        if not base_ok:
-                            # the schema-less evaluation itself departs from XDM/libxml2: that is property C01's
-                            # business; C20 still demands that the schema changes nothing (when it adds no PSVI node)
-                            stats['baseline_mismatch'] = stats.get('baseline_mismatch', 0) + 1
-                            ok = False
-                        outcome = None
-                        if not has_dflt:
-                            if obs2[True] != obs2[False]:
-                                outcome = 'differs_from_schemaless'
-                        else:
-                            tok = get_token(path, pv, None)
-                            try:
-                                ref = [docs[lib + '+'].node_id(x) for x in tok.select(copy(ctxs[lib][2]))]
-                            except Exception as e:  # noqa
-                                ref = err_class(e)
-                            stats['evaluations'] += 1
-                            if srt(ref) != want_s:
-                                ok = False      # C01's business again (path semantics on the materialised tree)
-                                stats['baseline_mismatch'] = stats.get('baseline_mismatch', 0) + 1
-                            if isinstance(obs2[True], tuple) or srt(obs2[True]) != srt(ref):
-                                outcome = 'differs_from_materialised_psvi'
-                                obs2[False] = ref
-                        if outcome:
-                            ok = False
-                            kinds = ','.join(sorted({f[n - 1]['k'] for n in states[s]['cur']}))
-                            fails.append((dict(mode='select', probe='select', axis=args[0], test=args[1],
-                                               outcome=outcome, ctx_kinds=kinds, depth=states[s]['depth'],
-                                               psvi_defaults=has_dflt, xsd=version, lib=lib, parser=pv),
-                                          dict(kind='select', xsd_text=xsd, xml=docs[lib].xml(), version=version, lib=lib,
-                                               parser=pv, path=path, f=[dict(x) for x in f], has_dflt=has_dflt),
-                                          dict(with_schema=want_s, without=want_p),
-                                          dict(with_schema=repr(obs2[True]), without=repr(obs2[False]))))
+                          def srt(o):
+                              try:
+                                  return sorted(o) if isinstance(o, list) else None
+                              except TypeError:
+                                  return None
+                          base_ok = srt(obs2[False]) == want_p
+                          if not base_ok:
+                              # the schema-less evaluation itself departs from XDM/libxml2: that is property C01's
+                              # business; C20 still demands that the schema changes nothing (when it adds no PSVI node)
+                              stats['baseline_mismatch'] = stats.get('baseline_mismatch', 0) + 1
+                              ok = False
+                          outcome = None
+                          if not has_dflt:
+                              if obs2[True] != obs2[False]:
+                                  outcome = 'differs_from_schemaless'
+                          else:
+                              tok = get_token(ptext, pv, None)
+                              try:
+                                  ref = [i for i in (docs[lib + '+'].node_id(x) for x in tok.select(copy(ctxs[lib][2]))) if i != 0]
+                              except Exception as e:  # noqa
+                                  ref = err_class(e)
+                              stats['evaluations'] += 1
+                              if srt(ref) != want_s:
+                                  ok = False      # C01's business again (path semantics on the materialised tree)
+                                  stats['baseline_mismatch'] = stats.get('baseline_mismatch', 0) + 1
+                              if isinstance(obs2[True], tuple) or srt(obs2[True]) != srt(ref):
+                                  outcome = 'differs_from_materialised_psvi'
+                                  obs2[False] = ref
+                          if outcome:
+                              ok = False
+                              kinds = ','.join(sorted({f[n - 1]['k'] if n else 'd' for n in states[s]['cur']}))
+                              fails.append((dict(mode='select', probe='select', axis=args[0], test=args[1],
+                                                 outcome=outcome, ctx_kinds=kinds, depth=states[s]['depth'],
+                                                 psvi_defaults=has_dflt, xsd=version, lib=lib, parser=pv, rooted=path.startswith('/'),
+                                                 spelling=('abbrev' if ptext != path else 'full')),
+                                            dict(kind='select', xsd_text=xsd, xml=docs[lib].xml(), version=version, lib=lib,
+                                                 parser=pv, path=ptext, f=[dict(x) for x in f], has_dflt=has_dflt),
+                                            dict(with_schema=want_s, without=want_p),
+                                            dict(with_schema=repr(obs2[True]), without=repr(obs2[False]))))
                 if ok and d not in prefix and states[d]['depth'] < 2:
                     prefix[d] = path
                     queue.append(d)
@@ -1299,7 +1469,7 @@ def replay(rec: dict) -> int:
     case, exp, feat = rec['case'], rec['expected'], rec['features']
     f = case['f']
     lib = case.get('lib', 'etree')
-    doc = Doc(f, lib)
+    doc = Doc(f, lib, env=case.get('env', 'plain'), nsplace=case.get('nsplace', 'root'), nons=case.get('nons', False))
     pv = case.get('parser', '3.1')
     print('xml      :', doc.xml())
     print('expected :', exp)
@@ -1309,7 +1479,7 @@ def replay(rec: dict) -> int:
         print('xsd 2    :', case['xsd2'])
         version = case['version']
         proxies = {0: None, 1: get_schema(case['xsd1'], version)[1], 2: get_schema(case['xsd2'], version)[1]}
-        ctx = XPathContext(get_node_tree(doc.root, namespaces=NS), namespaces=NS)
+        ctx = XPathContext(get_node_tree(doc.ctxroot, namespaces=NS), namespaces=NS)
         for action, args in case['actions']:
             print('action   :', action, args)
             apply_action(ctx, doc, proxies, action, args)
@@ -1359,10 +1529,11 @@ def replay(rec: dict) -> int:
             print('xsd      :', case['xsd_text'])
             proxy = get_schema(case['xsd_text'], version)[1]
         cl = value_classes(version)
-        ctx = XPathContext(doc.root, namespaces=NS, schema=proxy)
+        ctx = doc.context(proxy)
         probe = feat['probe']
         if 'expr' in case:
-            obs = select_api(doc.root, case['expr'], pv, proxy) if case.get('api') == 'select' else \
+            obs = select_api(doc.ctxroot, case['expr'], pv, proxy, doc.ns, None if doc.ctxroot is doc.root else doc.root) \
+                if case.get('api') == 'select' else \
                 evaluate(case['expr'], pv, proxy, ctx)
             print('expr     :', case['expr'])
             print('observed :', repr(obs))
